@@ -22,7 +22,7 @@ Arguments Ok {E A}. Arguments Err {E A}.
 (* the `expect`s on the modelled path *)
 Inductive site := ScalarRange       (* "hash value greater than curve order" (to_scalar / verify_taproot_commitment) *)
                 | TweakFailed       (* "Tap tweak failed" (tap_tweak) *)
-                | BuilderInvariant  (* "Builder invariant: last element of the branch must be some" (finalize) *)
+                | BuilderInvariant  (* finalize's former `expect("Builder invariant ...")`; not produced any more since fix c723f02 *)
                 | HuffmanPop        (* "len must be at least two" / "huffman tree algorithm is broken" *)
                 | OutOfFuel.        (* model artefact (loops run on fuel); excluded by theorem *)
 Inductive outcome (A : Type) := Val (a : A) | Fail (e : berr) | Panic (s : site).
@@ -123,7 +123,7 @@ Fixpoint ins (n : node) (d : nat) (b : br) {struct b} : res berr br :=
       if (length b =? d + 1)%nat then
         match d with
         | O => Err OverCompleteTree
-        | S d' => match combine n c with Ok m => ins m d' rest | Err e => Err e end      (* NodeInfo::combine(node, child) *)
+        | S d' => match combine c n with Ok m => ins m d' rest | Err e => Err e end      (* NodeInfo::combine(child, node), fix aee9a45 *)
         end
       else Ok (place n d b)
   | None :: rest => if (length b =? d + 1)%nat then Ok (Some n :: rest) else Ok (place n d b)
@@ -162,7 +162,7 @@ Definition finalize (b : br) (P : bytes) : outcome spendinfo :=
   if (1 <? length b)%nat then Fail IncompleteTree
   else match b with
        | [] => Fail EmptyTree
-       | None :: _ => Panic BuilderInvariant
+       | None :: _ => Fail IncompleteTree          (* `.ok_or(IncompleteTree)?` since fix c723f02 (was an `expect`) *)
        | Some n :: _ => from_node_info P n
        end.
 (* the whole API path: TaprootBuilder::new(), the add_* calls in order, finalize *)
@@ -232,12 +232,12 @@ Fixpoint hidden_paths (t : tree) : list (bytes * list bytes) :=
   | Hidden h => [(h, [])]
   | Node a b => map (fun x => (fst x, snd x ++ [root b])) (hidden_paths a) ++ map (fun x => (fst x, snd x ++ [root a])) (hidden_paths b)
   end.
-(* what the builder holds for a finished subtree: NodeInfo::combine(later, earlier) all the way down, no depth checks *)
+(* what the builder holds for a finished subtree: NodeInfo::combine(earlier, later) all the way down, no depth checks *)
 Definition combine_tot (a b : node) : node :=
   {| n_hash := Hbranch (sortpair (n_hash a) (n_hash b));
      n_leaves := map (snoc (n_hash b)) (n_leaves a) ++ map (snoc (n_hash a)) (n_leaves b) |}.
 Fixpoint node_of (t : tree) : node :=
-  match t with Leaf s v => new_leaf s v | Hidden h => new_hidden h | Node a b => combine_tot (node_of b) (node_of a) end.
+  match t with Leaf s v => new_leaf s v | Hidden h => new_hidden h | Node a b => combine_tot (node_of a) (node_of b) end.
 End TAP.
 
 (* ---- src/schnorr.rs, `impl TapTweak for UntweakedKeypair`, together with the two libsecp256k1 functions it and the public-key
